@@ -384,3 +384,15 @@ func (c *Ctx) inRangeOver(fi *FuncInfo, t *Trace, i int, f *types.Var) bool {
 	}
 	return false
 }
+
+// evRHSObj: the object the right-hand side of an assignment event names on its path (through the parameters of
+// inlined NEW helpers), falling back to the plain resolution.
+func evRHSObj(h *Interp, e *Event) types.Object {
+	if e.RObj != nil {
+		return e.RObj
+	}
+	if e.RHS == nil {
+		return nil
+	}
+	return h.objOf(e.RHS)
+}
